@@ -11,6 +11,9 @@ C16 driver: both parser models on arbitrary text.
                                        alphabet that start with `prefix` and have length ≤ maxlen, in
                                        lexicographic-by-extension order, each parsed; the digest is
                                        FNV-1a over the canonical answers with `f64` bit patterns
+                                       (a rejection is hashed as `err`, whatever its kind: the property
+                                       says "a value or an error"; coefficients of a univariate text with
+                                       two or more sign characters are hashed to 24 bits: `fmtNumCoarse`)
 
 For the digest numbers must be binary64 values: a decimal literal `m / 10^s` with `m < 2^53` and
 `s ≤ 22` is converted by one IEEE division of two exactly representable numbers, which is correctly
@@ -50,6 +53,18 @@ def answer2 (fmt : Num → String) (s : List Char) : String :=
           ++ t.vars.map fun (v, e) => fmtName v ++ " " ++ fmt e))
       ++ [toString p.variables.length] ++ p.variables.map fmtName)
 
+/-- Digest form of a coefficient of a univariate text with two or more sign characters (only such a text can have three
+or more like terms): the value rounded to 24 significant bits.  "Like powers are summed" - the order in which the parser
+adds them is not part of any property, and only sums of three or more terms depend on it (in the last bits).  Texts with
+fewer sign characters, and the multivariate parser (which never adds terms), are hashed with all 64 bits. -/
+def fmtNumCoarse (n : Num) : String :=
+  "g" ++ toString (((Num.toFloat n).toBits + 268435456) >>> 29).toNat
+
+def signCount (s : List Char) : Nat := (s.filter fun c => c == '+' || c == '-').length
+
+def digestAnswer (parser : Nat) (s : List Char) : String :=
+  if parser = 1 then answer1 (if signCount s ≥ 2 then fmtNumCoarse else fmtNumF) s else answer2 fmtNumF s
+
 def fnvStep (h : UInt64) (b : UInt8) : UInt64 := (h ^^^ b.toUInt64) * 0x100000001b3
 
 def fnvStr (h : UInt64) (s : String) : UInt64 :=
@@ -66,7 +81,8 @@ def enumFrom (alpha : List Char) (answer : List Char → String) : Nat → List 
   | budget, s, acc =>
     let a := answer s
     let acc := { acc with n := acc.n + 1, ok := acc.ok + (if a.startsWith "ok" then 1 else 0),
-                          h := fnvStr acc.h a }
+                          -- "a value or an error": the digest hashes `err` for every rejection, whatever the kind
+                          h := fnvStr acc.h (if a.startsWith "err" then "err" else a) }
     match budget with
     | 0 => acc
     | b + 1 => alpha.foldl (fun acc c => enumFrom alpha answer b (s ++ [c]) acc) acc
@@ -79,14 +95,12 @@ def handle (line : String) : String :=
     | "parse2" => do let s ← chars; return answer2 Num.show s
     | "enum" => do
       let parser ← nat; let maxlen ← nat; let pre ← chars
-      let ans := if parser = 1 then answer1 fmtNumF else answer2 fmtNumF
-      let acc := enumFrom alphabet ans (maxlen - pre.length) pre {}
+      let acc := enumFrom alphabet (digestAnswer parser) (maxlen - pre.length) pre {}
       return s!"{acc.n} {acc.ok} {acc.h.toNat}"
     | "enumx" => do
       -- the same enumeration over an alphabet given in the request
       let parser ← nat; let maxlen ← nat; let alpha ← chars; let pre ← chars
-      let ans := if parser = 1 then answer1 fmtNumF else answer2 fmtNumF
-      let acc := enumFrom alpha ans (maxlen - pre.length) pre {}
+      let acc := enumFrom alpha (digestAnswer parser) (maxlen - pre.length) pre {}
       return s!"{acc.n} {acc.ok} {acc.h.toNat}"
     -- requests judged by the harness oracle alone (characters outside the model's class table; texts of
     -- 10^5..10^6 characters): the answer is not compared
